@@ -1,6 +1,7 @@
 import ServiceModel.Properties.C03
 import ServiceModel.Proofs.NoSlash
 import ServiceModel.Proofs.SlashOnce
+import ServiceModel.Proofs.OnceRestart
 /-!
 # C04 — Providers are slashed exactly when they fail a request
 -/
@@ -132,5 +133,26 @@ theorem request_slashed_at_most_once (hc : CfgOK cfg p) {s s' : State} (hr : Rea
   have hsp := spent_leads hc (Reachable.step op hr hw) hl r (spent_of_deactivated (reachable_inv hc hr) op hw r hact hgone)
   have hr' := reachable_of_leads (Reachable.step op hr hw) hl
   exact hsp.1 (slash_is_for_a_request_just_settled hc hr' op' r pv' n' he').1
+
+/-- continuations with restarts stay on a chain with restarts -/
+theorem reachableR_of_leadsR {s s' : State} (hr : ReachableR cfg p h0 t0 s) (hl : LeadsR s s') : ReachableR cfg p h0 t0 s' := by
+  induction hl with
+  | refl s => exact hr
+  | step op hw _ ih => exact ih (ReachableR.step op hr hw)
+  | restart height time hre _ ih => exact ih (ReachableR.restart height time hr hre)
+
+/-- Once, restarts included: on a chain with any number of zero-height restarts, a request for which a provider was
+    slashed is never the reason of a second slash, whatever well-formed operations and further restarts follow (a
+    restart itself slashes nobody: the preparation only moves coins of the request escrow). -/
+theorem request_slashed_at_most_once_across_restarts (hc : CfgOK cfg p) {s s' : State} (hr : ReachableR cfg p h0 t0 s)
+    (op : Op) (hw : WF s op) (r : ReqId) (pv : Addr) (n : Nat) (he : Effect.slash r pv n ∈ (step s op).2.2)
+    (hl : LeadsR (step s op).1 s') (op' : Op) (pv' : Addr) (n' : Nat) :
+    Effect.slash r pv' n' ∉ (step s' op').2.2 := by
+  intro he'
+  have hinv := (reachableR_invAll hc hr).inv
+  obtain ⟨hact, hgone⟩ := step_slash_pending hinv op _ he r pv n rfl
+  have hsp := spent_leadsR hc (ReachableR.step op hr hw) hl r (spent_of_deactivated hinv op hw r hact hgone)
+  have hr' := reachableR_of_leadsR (ReachableR.step op hr hw) hl
+  exact hsp.1 (step_slash_pending (reachableR_invAll hc hr').inv op' _ he' r pv' n' rfl).1
 
 end SM.C04
